@@ -1,5 +1,6 @@
 import XdistModel.Driver.Sched
 import XdistModel.Ctl.DSession
+import XdistModel.Ctl.Receiver
 /-
   Line protocol front end for the `DSession` model: one line per event taken from the controller queue
   (plus flag lines for what the receiver threads did in between), one observation line back.
@@ -12,6 +13,7 @@ structure St where
   ctl : Option (Xdist.Ctl.State Any String) := none
   specs : AList Nat Nat := []
   dead : Bool := false
+  recv : Xdist.Receiver.State := {}
 
 def optStr (s : String) : Option String := if s = "-" then none else some (unesc s)
 
@@ -73,8 +75,31 @@ def obsOf (c : Xdist.Ctl.State Any String) (pubsFrom : Nat) : String :=
 def setFlag (c : Xdist.Ctl.State Any String) (n : Nat) (f : NodeFlags → NodeFlags) : Xdist.Ctl.State Any String :=
   { c with env := { c.env with flags := AList.set c.env.flags n (f (c.env.flags.get n)) } }
 
+def showPost : Xdist.Receiver.Post Unit → String
+  | .event n _ => s!"event:{n}"
+  | .workerfinished _ => "workerfinished"
+  | .errordown => "errordown"
+
+def recvMsg (ws : List String) : Option (Xdist.Receiver.Msg Unit) :=
+  match ws with
+  | ["event", n] => some (.event n ())
+  | ["ignored"] => some .ignored
+  | ["finished"] => some (.workerfinished ())
+  | ["garbage"] => some .garbage
+  | ["end"] => some .endMarker
+  | _ => none
+
 def handle (st : St) (line : String) : St × String :=
   match words line with
+  | ["recv-init"] => ({ st with recv := {} }, "ok")
+  | "recv" :: rest =>
+    match recvMsg rest with
+    | none => (st, "bad-op")
+    | some m =>
+      let r := Xdist.Receiver.step st.recv m
+      let posts := r.2.1.map showPost
+      ({ st with recv := r.1 },
+       s!"down={showBool r.1.down} sent={showBool r.1.shutdownSent} | {if posts.isEmpty then "-" else ";".intercalate posts} | wrote={showBool r.2.2}")
   | ["init", mode, nn, msc, maxfail, restart] =>
     match nn.toNat?, maxfail.toNat? with
     | some k, some mf =>
